@@ -70,3 +70,29 @@ package node
 //@   loop 0 invariant 0 <= i && i <= len(r.lookupTable) && sameobj(r.lookupTable, old(r.lookupTable)) && off(r.lookupTable) == off(old(r.lookupTable)) && len(r.lookupTable) <= old(len(r.lookupTable)) && cap(r.lookupTable) == cap(old(r.lookupTable))
 //@   loop 0 invariant forall k :: 0 <= k && k < i ==> r.lookupTable[k].group != group
 //@   loop 0 decreases len(r.lookupTable) - i
+//
+// The node table is kept ascending, which makes it a function of the *set* of live nodes (every coordinator that knows the
+// same nodes holds the same table, whatever the order of the add / remove events it saw).
+//@ spec func nodesAscending(t []string) bool = forall i, j :: 0 <= i && i < j && j < len(t) ==> t[i] <= t[j]
+//
+//@ func roundRobinSelector.RemoveNode
+//@   mode int
+//@   requires r != nil && nodesAscending(r.nodes)
+//@   modifies r.nodes
+//@   modifies r.nodes[0:len(r.nodes)]
+//@   ensures  still-ascending: nodesAscending(r.nodes)
+//@   ensures  at-most-one-removed: len(r.nodes) == old(len(r.nodes)) || len(r.nodes) == old(len(r.nodes)) - 1
+//@   ensures  only-removes: forall k :: 0 <= k && k < len(r.nodes) ==> (exists m :: 0 <= m && m < old(len(r.nodes)) && r.nodes[k] == old(r.nodes[m]))
+//@ func sort.StringSlice.Sort
+//@   assumed standard library: sorts the slice in place, ascending
+//@   modifies recv[0:len(recv)]
+//@   ensures  nodesAscending(recv)
+//@ func pub.LabelSelector.Matches
+//@   assumed label matching: an arbitrary answer, no effect on the selector's tables
+//@   pure
+//@ func roundRobinSelector.AddNode
+//@   mode int
+//@   requires r != nil && nodesAscending(r.nodes)
+//@   modifies r.nodes
+//@   modifies allof(string)
+//@   ensures  still-ascending: nodesAscending(r.nodes)
